@@ -4,7 +4,9 @@ from __future__ import annotations
 import numpy as np
 
 from tvf import attach, idblob, targets
-from tvf.env import digest
+from tvf.env import digest, install_fit_marker
+
+install_fit_marker()
 
 DEFAULTS = dict(target="gauss2", tkw={}, N=64, n_total=256, kernel="tpcn", resample="mult",
                 clustering=False, mode="vec", ess_ratio=2.0, volume_variation=None,
